@@ -245,6 +245,12 @@ class Run:
             if params.get("rebound"):
                 self._rebound = True
             self.solver = Solver(self.problem, parameters=self.sp)
+            if params.get("zoom"):
+                # the solver is re-targeted to a sub-box through its own evolvent before the first iteration
+                lo = [float(v) for v in self.problem.lowerBoundOfFloatVariables]
+                hi = [float(v) for v in self.problem.upperBoundOfFloatVariables]
+                self.solver.evolvent.SetBounds([a + 0.25 * (b - a) for a, b in zip(lo, hi)],
+                                               [b - 0.125 * (b - a) for a, b in zip(lo, hi)])
             if getattr(self, "_rebound", False):
                 # the box is handed to the solver's evolvent once more through the public SetBounds: a no-op
                 self.solver.evolvent.SetBounds([float(v) for v in recipe["lower"]], [float(v) for v in recipe["upper"]])
